@@ -39,7 +39,7 @@ def c14(c):
         "a bounded send queue (BlockingModSendQueueMaxSize > 0) refuses a WriteMessage as a whole before its first fragment is queued (c14_all_or_none; "
         "the defect that it could refuse half-way is fixed in /repo, the signature partial-message-queue-full stays armed: one bounded-queue cell per round)",
     ]
-    args = ["-n", n(c, 4, 30), "-qn", n(c, 800, 10000)]
+    args = ["-n", n(c, 3, 30), "-qn", n(c, 600, 10000), "-cn", n(c, 24, 480)]
     if c.tier == "thorough":
         args.append("-full")
     c.harness("wsconc", args, overlay=False, model=MODEL, timeout=3000)
@@ -79,7 +79,7 @@ MANIFEST = {
              "engine's parser loop, blocking with HandleRead, transferred to the poller (from a blocking engine and from net/http), epoll LT / ET / ET+ONESHOT, direct and queued writes, "
              "MaxWebsocketFramePayloadSize 64..4096; per connection up to 10 goroutines x up to 80 messages of up to 8 fragments through WriteMessage / WriteFrame, echoes and pongs "
              "written from callbacks, client messages in random fragments and TCP segments, slow handlers; endings: close frame, abrupt disconnect (idle / during a handler / during the "
-             "writes), Close from another goroutine, Engine.Stop (idle / during a handler / during the open handler); in every cell two connections send the handshake request and their first frame(s) in one write (valid message, a frame that fails Parse - over MessageLengthLimit, reserved bit, reserved opcode -, unmasked frame, close frame, more messages behind) or break off around the hand-over from the HTTP parser (refused handshake, hang-up right after the request): a connection whose open callback ran must get its close callback exactly once (close-missing-after-early-parse-error-<path>), a refused handshake must not open. Oracles: every message arrives as one uninterrupted frame sequence, once per writer and "
+             "writes), Close from another goroutine, Engine.Stop (idle / during a handler / during the open handler); in every cell two connections send the handshake request and their first frame(s) in one write (valid message, a frame that fails Parse - over MessageLengthLimit, reserved bit, reserved opcode -, unmasked frame, close frame, more messages behind) or break off around the hand-over from the HTTP parser (refused handshake, hang-up right after the request): a connection whose open callback ran must get its close callback exactly once (close-missing-after-early-parse-error-<path>), a refused handshake must not open. Client tier: a real websocket.Dialer on its own engine (synchronous Dial / asynchronous Dial with a result handler, client engine LT / ET / ET+ONESHOT, open handler fast or 50-200 ms) against a server that greets from its open handler (1-3 messages and possibly a ping right behind the 101 answer, a second batch, then server close / client close / close frame): the open callback of the client connection completes before any message / ping / close callback, callbacks never overlap, wire order, close once and last (signatures client-<class>/<sync|async>, also emitted for C05). Oracles: every message arrives as one uninterrupted frame sequence, once per writer and "
              "sequence number, in per-writer order, none lost before the end marker; open completed before the first message callback, callbacks one at a time in wire order, close "
              "exactly once and after the last message callback.",
         note="Partial: the differential run is at the granularity of whole write calls (the per-fragment interleaving is excluded by the mutex, by inspection); the callback-side "
